@@ -128,7 +128,7 @@ theorem processCollectedWith_done (cfg : Cfg) (now : Int) (ca : CaCtx) (f : Fetc
     ∃ items kids objs,
       processCollectedWith cfg now ca f st reorder
         = .done ⟨items, kids, true,
-            some ⟨mf, vm.mft.number, vm.mft.thisUpdate, ca.info.repo, crl, objs⟩⟩
+            some ⟨mf, vm.mft.number, vm.mft.thisUpdate, vm.mft.ee.notAfter, ca.info.repo, crl, objs⟩⟩
       ∧ items.Perm (fetchedItems cfg now ca vm f.files)
       ∧ kids.Perm (fetchedKids cfg now ca vm f.files)
       ∧ objs.Perm (fetchedObjs vm f.files) := by
@@ -283,7 +283,7 @@ theorem processCollectedWith_decision (cfg : Cfg) (now : Int) (ca : CaCtx) (f : 
       ∃ items kids objs,
         processCollectedWith cfg now ca f st reorder
           = .done ⟨items, kids, true,
-              some ⟨mf, vm.mft.number, vm.mft.thisUpdate, ca.info.repo, crl, objs⟩⟩
+              some ⟨mf, vm.mft.number, vm.mft.thisUpdate, vm.mft.ee.notAfter, ca.info.repo, crl, objs⟩⟩
         ∧ items.Perm (fetchedItems cfg now ca vm f.files)
         ∧ kids.Perm (fetchedKids cfg now ca vm f.files)
         ∧ objs.Perm (fetchedObjs vm f.files)
